@@ -18,6 +18,8 @@ def run(res, programs, tier):
     for P in programs:
         if "dashu_ratio" in P.units:
             _r18_3(res, P, P.name)
+        if "dashu_float" in P.units:
+            _r18_4(res, P, P.name)
     _r18_2(res, programs)
     # the callers use it only to compare interval end points with the interior optimum
     res.rule("R18.1b", "simplest_from_float / impl_simplest_from_float consult is_simpler_than for exactly the included end points (incl_l -> left, incl_r -> right)")
@@ -192,6 +194,47 @@ def _r18_3(res, P, cfgname):
         else:
             res.fail("R18.3", cfgname, key, "Repr::simplest_in returns 0 on a path that does not decide is_zero() of both end points (facts: %s): with 0 as an end point (sign Positive) the interval (-1/2, 0) is taken for one that straddles zero and the end point itself is returned" % (decided,), mir.span_loc(t["sp"]))
     res.floor("R18.3", cfgname, n, 1, "early zero returns of simplest_in")
+
+
+# ---------------------------------------------------------------------------------------------
+# R18.4  the end points of the rounding interval are exact quantities.  ErrorBounds::error_bounds and
+# what it calls inside dashu_float (FBig::ulp, ...) must not use the cheap estimates (digits_ub, digits_lb,
+# log2_est, log2_bounds): an over-estimated digit count doubles the interval for significands just below a
+# power of the base, and simplest_from_float then returns a fraction that does not round back.
+ESTIMATES = ("::digits_ub", "::digits_lb", "::log2_est", "::log2_bounds")
+
+
+def _r18_4(res, P, cfgname):
+    from . import mir
+    res.rule("R18.4", "ErrorBounds::error_bounds and its callees inside dashu_float use no estimate (digits_ub / digits_lb / log2_est / log2_bounds): interval end points are exact")
+    fns = {f["p"]: f for f in P.fns("dashu_float") if f.get("mir")}
+    roots = [p for p in fns if p.endswith("ErrorBounds>::error_bounds") or ("ErrorBounds for" in p and p.endswith("::error_bounds"))]
+    if len(roots) < 6:
+        res.anchor("R18.4", cfgname, "six ErrorBounds::error_bounds impls (found %d)" % len(roots))
+        return
+    for r in sorted(roots):
+        seen, st, bad, reached = {r}, [(r, 0)], None, 0
+        while st and bad is None:
+            p, d = st.pop()
+            f = fns.get(p)
+            if f is None:
+                continue
+            reached += 1
+            for bb, t, fr in mir.iter_calls(f["mir"]):
+                cp = fr and (fr.get("rp") or fr["p"])
+                if not cp:
+                    continue
+                if cp.endswith(ESTIMATES):
+                    bad = (p, cp, t)
+                    break
+                if cp.startswith("dashu_float::") and cp not in seen and d < 3:
+                    seen.add(cp)
+                    st.append((cp, d + 1))
+        key = "estimate-free: " + r
+        if bad:
+            res.fail("R18.4", cfgname, key, "%s (reached from %s) calls the estimate %s: the rounding interval handed to the simplest-fraction search is no longer exact" % (bad[0], r, bad[1].rsplit("::", 1)[-1]), mir.span_loc(bad[2]["sp"]))
+        else:
+            res.ok("R18.4", cfgname, key, sample=dict(root=r, functions_reached=reached))
 
 
 LEVEL = LEVEL + " Also (R18.2) ErrorBounds::error_bounds of every mode returns the interval (with open / closed ends) of values that round back to the float, tabulated against the mode's definition; (R04.1, shared) the interval end points handed to the Farey walk are reduced."
